@@ -279,7 +279,11 @@ class Ex(StmtMixin, ExprMixin, CallMixin, CompMixin):
   def verify(self, c):
     """Generate the obligations of one function against its contract."""
     mod = source.load(self.repo, c.file)
-    fdef = mod.func(c.qualname)
+    if getattr(c, 'harness_src', None):
+      # a proof harness (lemma) over real functions that are inlined / under contract
+      fdef = ast.parse(c.harness_src).body[0]
+    else:
+      fdef = mod.func(c.qualname)
     decs = source.decorators(fdef)
     for d in decs:
       if d not in ('classmethod', 'staticmethod', 'property', 'overload', 'override'):
